@@ -90,6 +90,7 @@ def run_shard(desc, ctx):
     fam.append([['meta', 'group', 45], ['foreign', 'open_quote_big'], ['reload'], ['meta', 'group', 46], ['reload']])
     fam.append([['meta', 'group', 47], ['foreign', 'dangling_link'], ['reload'], ['foreign', 'csv_tab_cell'], ['reload']])
     fam.append([['foreign', 'csv_tab_cell'], ['meta', 'quality', 48], ['foreign', 'dangling_link'], ['reload']])
+    fam.append([['foreign', 'summary_row'], ['meta', 'group', 49], ['reload']])
     fam.append([['clusters', 7], ['meta', 'group', 15], ['reload'], ['clusters', 8], ['meta', 'group', 16], ['clusters_back'], ['meta_back', 'group']])
     for j, ops in enumerate(fam):
         for rep in range(2):
@@ -122,7 +123,7 @@ def rand_ops(rng):
         elif k <= 6:
             ops.append(['foreign', ['valid_tsv', 'valid_csv', 'empty', 'header_only', 'garbage', 'ragged', 'no_cluster_id',
                                     'cluster_info', 'csv_same_field_late', 'csv_same_field_early', 'comma_tsv', 'pandas_index',
-                                    'csv_same_stem', 'tab_csv', 'open_quote_big', 'csv_tab_cell', 'dangling_link'][int(rng.integers(0, 17))]])
+                                    'csv_same_stem', 'tab_csv', 'open_quote_big', 'csv_tab_cell', 'dangling_link', 'summary_row'][int(rng.integers(0, 18))]])
         elif k == 7:
             ops.append(['subset', int(rng.integers(1, 6)), int(rng.integers(1, 4)), [1.0, 1, 2.5][int(rng.integers(0, 3))]])
         elif k == 8:
@@ -152,6 +153,8 @@ FOREIGN = {
     'open_quote_big': ('cluster_quote.tsv', 'cluster_id\tqf\n0\t"abc\n' + ''.join('%d\tvalue number %d\n' % (i, i) for i in range(1, 7000)), {}),
     # a comma-separated table with a tab inside a quoted free-text cell
     'csv_tab_cell': ('cluster_notes.csv', 'cluster_id,note5,n6\n0,"a\tb",1\n1,plain,2\n', {'note5': {0: 'a\tb', 1: 'plain'}, 'n6': {0: 1, 1: 2}}),
+    # a table with a summary row whose id cell is no integer: the other rows are rows like any others
+    'summary_row': ('cluster_stats.csv', 'cluster_id,notes7\n0,a\n1,b\nmean,zz\n2,c\n', {'notes7': {0: 'a', 1: 'b', 'mean': 'zz', 2: 'c'}}),
     # a table that is a symbolic link to a file that no longer exists
     'dangling_link': ('cluster_gone.tsv', 'LINK', {}),
     'no_cluster_id': ('other.csv', 'id,thing\n0,1\n1,2\n', {}),
